@@ -237,6 +237,9 @@ structure JobIn where
   mappings : List (Bytes × Bytes)  -- jobResourcesMappings
   resOpt : Bytes      -- config.jobResourcesOpt
 
+def threadsKey : Bytes :=   -- `__MRO_THREADS__`
+  [0x5F, 0x5F, 0x4D, 0x52, 0x4F, 0x5F, 0x54, 0x48, 0x52, 0x45, 0x41, 0x44, 0x53, 0x5F, 0x5F]
+
 /-- `GetSystemReqs` followed by the arithmetic at the head
 of `jobScript`: (threads, memGB, vmemGB, memGBPerThread, vmemGBPerThread) -/
 def resources (j : JobIn) : Nat × Nat × Nat × Nat × Nat :=
@@ -245,7 +248,7 @@ def resources (j : JobIn) : Nat × Nat × Nat × Nat × Nat :=
   let v := if j.vmemGB < 1 then m + j.extraVmemGB else j.vmemGB
   let t1 := if j.memGBPerCore > 0 && m > t0 * j.memGBPerCore then ceilDiv m j.memGBPerCore else t0
   -- verifyJobManager: threading is enabled iff the template mentions __MRO_THREADS__
-  let t := if containsB j.tmpl "__MRO_THREADS__".toUTF8.toList then t1 else 1
+  let t := if containsB j.tmpl threadsKey then t1 else 1
   let vpt := max j.memGBPerCore (ceilDiv v t)
   if j.alwaysVmem && v > m then (t, v, v, vpt, vpt)
   else (t, m, v, max j.memGBPerCore (ceilDiv m t), vpt)
@@ -255,10 +258,12 @@ environment overrides it (a Go map: keys distinct) -/
 def mergeEnvs (names : List Bytes) (thr : Bytes) (envs : List (Bytes × Bytes)) : List (Bytes × Bytes) :=
   ((names.eraseDups.filter fun n => !(envs.any fun kv => kv.1 == n)).map fun n => (n, thr)) ++ envs
 
+def resKey : Bytes := [0x5F, 0x5F, 0x52, 0x45, 0x53, 0x4F, 0x55, 0x52, 0x43, 0x45, 0x53, 0x5F, 0x5F]   -- `__RESOURCES__`
+
 def mappedResources (j : JobIn) : Bytes :=
   if j.special.isEmpty then [] else
   match j.mappings.lookup j.special with
-  | some r => replaceFirst "__RESOURCES__".toUTF8.toList r j.resOpt
+  | some r => replaceFirst resKey r j.resOpt
   | none => []
 
 inductive Kind | raw | int | quoted | cmd
@@ -271,7 +276,11 @@ def bytesOf (s : String) : Bytes := s.toUTF8.toList
 
 /-- the parameter table of `jobScript`, in source order: name, kind, value -/
 def params (tbl : EscTable) (j : JobIn) : List (String × Kind × Bytes) :=
-  let (t, m, v, mpt, vpt) := resources j
+  let t := (resources j).1
+  let m := (resources j).2.1
+  let v := (resources j).2.2.1
+  let mpt := (resources j).2.2.2.1
+  let vpt := (resources j).2.2.2.2
   let n (x : Nat) := natDigits x
   [ ("JOB_NAME", .raw, j.fqname ++ [0x2E] ++ j.shellName),
     ("THREADS", .int, n t),
@@ -356,7 +365,8 @@ def valsOf (ps : List (String × Kind × Bytes)) (name : String) : Bytes :=
 
 /-- shapes of template lines; `other` = a line the theorems do not cover -/
 inductive Shape
-  | inert       -- empty line, or a line whose first byte is `#`: a comment whatever follows (no newline)
+  | inert       -- empty line, or a line whose first byte is `#` and which does not hold __MRO_CMD__:
+                -- a comment whatever the values are, as long as they contain no newline
   | cmdAlone    -- `__MRO_CMD__`
   | resources   -- `__MRO_RESOURCES__` (a scheduler directive, i.e. a comment, or nothing)
   | cdWorkdir   -- `cd __MRO_JOB_WORKDIR__`
@@ -364,21 +374,32 @@ inductive Shape
   | other
   deriving DecidableEq, Repr
 
-def lit (s : String) : Seg := ("", bytesOf s)
 
-def shapeCd : SegLine := [lit "cd ", ("JOB_WORKDIR", [])]
+def bEnv : Bytes := [0x2F, 0x75, 0x73, 0x72, 0x2F, 0x62, 0x69, 0x6E, 0x2F, 0x65, 0x6E, 0x76]   -- `/usr/bin/env`
+def bEcho : Bytes := [0x65, 0x63, 0x68, 0x6F]   -- `echo`
+def bCd : Bytes := [0x63, 0x64]   -- `cd`
+
+def shapeCd : SegLine := [("", [0x63, 0x64, 0x20]), ("JOB_WORKDIR", [])]   -- `cd `
 def shapeEnv : SegLine :=
-  [lit "/usr/bin/env ", ("CMD", []), lit " > ", ("STDOUT", []), lit " 2> ", ("STDERR", []), lit " & echo $!"]
+  [("", bEnv ++ [0x20]), ("CMD", []), ("", [0x20, 0x3E, 0x20]), ("STDOUT", []), ("", [0x20, 0x32, 0x3E, 0x20]),
+   ("STDERR", []), ("", [0x20, 0x26, 0x20] ++ bEcho ++ [0x20, 0x24, 0x21])]
 
 def shapeOf (l : SegLine) : Shape :=
-  if l == [] then .inert
-  else if l == [("CMD", [])] then .cmdAlone
-  else if l == [("RESOURCES", [])] then .resources
-  else if l == shapeCd then .cdWorkdir
-  else if l == shapeEnv then .envCmdBg
-  else match l with
-    | ("", 0x23 :: _) :: _ => .inert
-    | _ => .other
+  match l with
+  | [] => .inert
+  | ("", 0x23 :: _) :: _ => if l.any (fun s => s.1 == "CMD") then .other else .inert
+  | _ =>
+    if l = [("CMD", [])] then .cmdAlone
+    else if l = [("RESOURCES", [])] then .resources
+    else if l = shapeCd then .cdWorkdir
+    else if l = shapeEnv then .envCmdBg
+    else .other
+
+/-- a template line the theorems cover: known shape, literal text without newline, variables
+that are parameters of `jobScript` -/
+def lineOK (l : SegLine) : Bool :=
+  shapeOf l != .other &&
+    l.all fun s => if segIsVar s then paramSpec.any (fun p => p.1 == s.1) else !s.2.contains 0x0A
 
 /-- the strings mrp was given -/
 structure Given where
@@ -397,17 +418,20 @@ def cmdWords (g : Given) : List Tok :=
 def lineToks (g : Given) : Shape → List Tok
   | .inert | .resources | .other => []
   | .cmdAlone => cmdWords g
-  | .cdWorkdir => [w (bytesOf "cd"), w g.workdir]
+  | .cdWorkdir => [w bCd, w g.workdir]
   | .envCmdBg =>
-    w (bytesOf "/usr/bin/env") :: cmdWords g ++
-      [.op (bytesOf ">"), w g.stdout, .op (bytesOf "2>"), w g.stderr, .op (bytesOf "&"),
-       w (bytesOf "echo"), .special (bytesOf "$!")]
+    w bEnv :: cmdWords g ++
+      [.op [0x3E], w g.stdout, .op [0x32, 0x3E], w g.stderr, .op [0x26], w bEcho, .special [0x24, 0x21]]
+
+/-- token lists of lines, separated by newline tokens -/
+def joinToks : List (List Tok) → List Tok
+  | [] => []
+  | [t] => t
+  | t :: ts => t ++ Tok.nl :: joinToks ts
 
 /-- tokens of the whole script: the lines' tokens separated by newline tokens -/
-def expectedToks (g : Given) : List SegLine → List Tok
-  | [] => []
-  | [l] => lineToks g (shapeOf l)
-  | l :: ls => lineToks g (shapeOf l) ++ Tok.nl :: expectedToks g ls
+def expectedToks (g : Given) (ls : List SegLine) : List Tok :=
+  joinToks (ls.map fun l => lineToks g (shapeOf l))
 
 def givenOf (tbl : EscTable) (j : JobIn) : Given :=
   { envs := sortEnvs tbl (mergeEnvs j.threadEnvs (natDigits (resources j).1) j.envs),
